@@ -652,7 +652,9 @@ RULE = ("(1) method level: random sequences (1-60 operations) of add_connection,
         "resolved, every port refuses connections — probed once, every connection task ended, every hook acknowledged, every waiter "
         "resolved) is compared. The two clauses of the property are evaluated on every observed run (oracle). The branch order of "
         "tokio::select! in the accept future is random: a run in which the other ready branch was polled first is repeated (up to 20 "
-        "times), schedules contain at most one such step; what still cannot be executed is counted as out_of_domain. "
+        "times), schedules contain at most one such step; what still cannot be executed is counted as out_of_domain. A step the real code "
+        "does not take within 4 s ends the implementation's trace with the marker 78 (after one repetition of the run), an access to the "
+        "manager's hook points by a thread that is none of the model's threads with the marker 79: both are mismatches. "
         "distinct_nontrivial counts distinct schedules / operation sequences by outcome")
 ASSUMPTIONS = [
     "sequentially consistent interleavings of the atomic accesses; Release/Acquire store-buffering executions (shutdown() stores the flag "
@@ -662,13 +664,18 @@ ASSUMPTIONS = [
     "every other thread)",
     "every connection task ends (the handler returns or panics) and every registered hook acknowledges exactly once: threads with an "
     "enabled step are eventually scheduled; 'quiescent' means no thread of the server or of its users can move",
-    "listeners are bound and counted before shutdown() can be called (RunConfig::execute takes the counts before it returns); a hook is "
+    "listeners are bound and counted before shutdown() can be called: RunConfig::execute, for each port in turn, takes the accept loop's "
+    "count, creates/binds/listens the socket itself (since fix 76d8d4f; before it the spawned task did) and only then spawns the accept "
+    "task, and hands out the manager when all of that is done; the model's initial state is the state at that return (count = number of "
+    "listeners, every loop about to poll) and every replay checks it at its first observation. A hook is "
     "'registered in time' if wait_for_pre_shutdown() was called before the completion task read the hook count",
     "connections queued in the kernel that no accept() has returned are not 'accepted' (they are reset when the listener closes)",
 ]
 TRUSTED = ["modelled: src/shutdown.rs Manager::{add_connection, remove_connection, shutdown, _shutdown, wait, wait_for_pre_shutdown}, "
            "WakerList::notify, set_waker/remove_waker, AcceptFuture::accept (poll_fn + select!), ConnectionGuard; src/lib.rs accept (loop, "
-           "count, spawn, exit) and the listener part of RunConfig::execute; src/ctl.rs shutdown/wait plugins as caller + hook",
+           "count, spawn, exit) and the listener part of RunConfig::execute (count, bind + listen, spawn per port: the state it leaves behind is "
+           "the model's initial state; the interleaving of the start-up program itself with a predecessor is C11's model); src/ctl.rs "
+           "shutdown/wait plugins as caller + hook",
            "hook points: kvarn commits listed in hooks.json (feature verif-hooks, add-only); the schedule controller lives in the harness"]
 LEVEL_TEXT = ("Machine-checked Coq theorems over an executable labelled transition system of the shutdown manager, the accept future, "
               "the accept loops, the connection tasks (handler returns or panics), the shutdown callers, the completion task, pre-shutdown "
